@@ -642,6 +642,8 @@ class ExprLambda(Expr):
             if parameter.kind is ParameterKind.positional_only:
                 pos_only = True
             elif parameter.kind is ParameterKind.var_positional:
+                # Keyword-only parameters following `*args` need no bare `*` marker.
+                kw_only = True
                 yield "*"
             elif parameter.kind is ParameterKind.var_keyword:
                 yield "**"
